@@ -348,24 +348,93 @@ def _check_arcs(repo, rep):
     rep.saw(F)
     seen_calls = []
 
-    def stub_cubic(it, a, k):
-        # the stub echoes every argument it was given into the control points, so that the rewritten
-        # command list shows what arc_to_cubic was called with
-        pt = lambda x, y: Rec(ClassRef("geometric_types", "Point"), {"x": x, "y": y})
-        start = a[0] if isinstance(a[0], Rec) else pt(a[0][0], a[0][1])
-        return [(start, pt(a[1], a[2]), pt(RF.sym("midx"), RF.sym("midy"))), (pt(a[3], a[4]), pt(a[5], 0), a[6])]
+    def _pt(x, y):
+        return Rec(ClassRef("geometric_types", "Point"), {"x": x, "y": y})
 
-    def stub_line(it, a, k):
-        seen_calls.append(a)
-        return [(None, None, a[6])]
+    def _xy(p):
+        return (p.f["x"], p.f["y"]) if isinstance(p, Rec) else (p[0], p[1])
 
-    def stub_none(it, a, k):
+    def _case_conds(start, rx, ry, end):
+        (sx, sy), (ex, ey) = _xy(start), _xy(end)
+        # asked about the displacement, so that the question reads the same however the current point was accumulated
+        return [Cond("==", (simplify_num(to_rf(ex) - to_rf(sx)), 0)), Cond("==", (simplify_num(to_rf(ey) - to_rf(sy)), 0)), Cond("==", (to_rf(rx), 0)), Cond("==", (to_rf(ry), 0))]
+
+    def stub(it, a, k):
+        # arc_to_cubic's contract (decided by C12's dispatch rule): coincident end points -> nothing; else a zero radius -> one
+        # straight segment; else curves.  The stub asks the same questions through the evaluator, so that it never contradicts
+        # a test the code under analysis has already made on this path.  The curves echo every argument into the control
+        # points, so that the rewritten command list shows what arc_to_cubic was called with.
         seen_calls.append(a)
-        return []
+        same_x, same_y, zx, zy = _case_conds(a[0], a[1], a[2], a[6])
+        if it.decide(same_x) and it.decide(same_y):
+            return []
+        if it.decide(zx) or it.decide(zy):
+            return [(None, None, a[6])]
+        start = a[0] if isinstance(a[0], Rec) else _pt(a[0][0], a[0][1])
+        return [(start, _pt(a[1], a[2]), _pt(RF.sym("midx"), RF.sym("midy"))), (_pt(a[3], a[4]), _pt(a[5], 0), a[6])]
+
+    def _path_eqs(o):
+        """Substitution implied by the equalities this path decided true (x == c, or x == expression in other symbols)."""
+        from sa.sym import normalise_decisions
+        eqs = dict(o.equalities())
+        for c, v in normalise_decisions(o.decisions):
+            if not (v and getattr(c, "op", "") == "==" and len(c.args) == 2):
+                continue
+            try:
+                d = to_rf(c.args[0]) - to_rf(c.args[1])
+                if eqs:
+                    d = d.subst(eqs)
+                if not d.d.is_const():
+                    continue
+                terms = d.n.canon().t
+            except Exception:
+                continue
+            lin = [m for m in terms if len(m) == 1 and m[0][1] == 1 and isinstance(m[0][0], str)
+                   and not any(m is not m2 and any(f[0] == m[0][0] for f in m2) for m2 in terms)]
+            if not lin:
+                continue
+            m = max(lin, key=lambda mm: mm[0][0])
+            x = RF.sym(m[0][0])
+            k = terms[m]
+            eqs[m[0][0]] = simplify_num(x - d * RF.of(d.d.const_value()) / RF.of(k)) if hasattr(d.d, "const_value") else None
+            if eqs[m[0][0]] is None:
+                del eqs[m[0][0]]
+        return eqs
+
+    def _decided(o, cond):
+        """What outcome o decided about cond (None: never asked)."""
+        from sa.sym import normalise_decisions
+        d = Interp(repo)._decide_cond(cond)
+        if d is not None:
+            return d
+        eqs = _path_eqs(o)
+        diff = lambda x, y: (to_rf(x) - to_rf(y)).subst(eqs) if eqs else (to_rf(x) - to_rf(y))
+        want = diff(*cond.args)
+        for c, v in normalise_decisions(o.decisions):
+            if getattr(c, "op", "") == "==" and len(c.args) == 2:
+                try:
+                    got = diff(*c.args)
+                except Exception:
+                    continue
+                raw = to_rf(c.args[0]) - to_rf(c.args[1])
+                raw_want = to_rf(cond.args[0]) - to_rf(cond.args[1])
+                if got.equals(want) or got.equals(-want) or raw.equals(raw_want) or raw.equals(-raw_want):
+                    return v
+        return None
+
+    def _kind(o, start, args, end):
+        same_x, same_y, zx, zy = _case_conds(start, args[0], args[1], end)
+        if _decided(o, same_x) and _decided(o, same_y):
+            return "none"
+        if _decided(o, zx) or _decided(o, zy):
+            return "line"
+        return "cubic"
 
     bad = []
     n = 0
-    for stub, kind in ((stub_cubic, "cubic"), (stub_line, "line"), (stub_none, "none")):
+    kinds_seen = set()
+    kind = "consistent"
+    if True:
         for letters in [("M", "l", arc, c) for arc in "aA" for c in "lLaAzcq"] + [("M", arc) for arc in "aA"] + [("M", c) for c in spec.LETTERS if c not in "aA"]:
             cmds = sym_cmds(letters)
             del seen_calls[:]
@@ -380,27 +449,33 @@ def _check_arcs(repo, rep):
                 if any(c in "aA" for c, _ in oc):
                     bad.append((letters, kind, f"arc survives: {show_cmds(oc)}"))
                     continue
-                # expected: every non-arc command unchanged, every arc replaced by the stub's segments
+                # expected: every non-arc command unchanged, every arc replaced by what arc_to_cubic answers for it
                 want_segs = ref_interp(cmds)
                 exp = []
                 for (c, args), seg in zip(cmds, want_segs):
                     if c in "aA":
                         p0, p1 = seg[1], seg[-1]
-                        if kind == "cubic":
+                        kd = _kind(o, p0, args, p1)
+                        kinds_seen.add(kd)
+                        if kd == "cubic":
                             exp.append(("C", (p0[0], p0[1], seg[2], seg[3], RF.sym("midx"), RF.sym("midy"))))
                             exp.append(("C", (seg[4], seg[5], seg[6], 0, p1[0], p1[1])))
-                        elif kind == "line":
+                        elif kd == "line":
                             exp.append(("L", (p1[0], p1[1])))
                     else:
                         exp.append((c, args))
-                ok = len(exp) == len(oc) and all(a[0] == b[0] and len(a[1]) == len(b[1]) and all(to_rf(x).equals(y) for x, y in zip(a[1], b[1])) for a, b in zip(exp, oc))
+                eqs = _path_eqs(o)  # what this path knows (a displacement that is zero): compared modulo that
+                same = lambda x, y: to_rf(x).equals(y) or (eqs and to_rf(x).subst(eqs).equals(to_rf(y).subst(eqs)))
+                ok = len(exp) == len(oc) and all(a[0] == b[0] and len(a[1]) == len(b[1]) and all(same(x, y) for x, y in zip(a[1], b[1])) for a, b in zip(exp, oc))
                 if not ok:
                     bad.append((letters, kind, f"expected {show_cmds(exp)} got {show_cmds(oc)}"))
+    if kinds_seen != {"none", "line", "cubic"}:
+        raise AnalysisError(f"{F}: the arc cases explored are {sorted(kinds_seen)}; coincident end points, a zero radius and a proper arc must all occur")
     if bad:
         l, kind, msg = bad[0]
         rep.fail("R-CASE.arcs", F, f"arcs_to_cubics({' '.join(l)}) [{kind} stub]", f"{len(bad)} of {n} cases wrong; first: {msg}", st, st.func("SVGPath.arcs_to_cubics"))
     else:
-        rep.ok("R-CASE.arcs", F, f"{n} cases x 3 stub kinds: arc -> C.../L/nothing with absolute start and end, other commands untouched", True)
+        rep.ok("R-CASE.arcs", F, f"{n} cases (arc_to_cubic answering per its contract: nothing for coincident end points, a straight segment for a zero radius, curves otherwise): arc -> nothing/L/C... with absolute start and end, other commands untouched", True)
 
 
 def _check_subpaths(repo, rep):
